@@ -249,6 +249,14 @@ def _run_unit(args):
                 warmup.run()
         except Exception:
             pass
+    if idx % (4 if stride <= 2 else stride) == 2 and getattr(mod, "PERTURB", True):
+        # ... and some units run with process-wide settings changed that no result may depend on
+        try:
+            from fmc import warmup
+
+            warmup.perturb_settings()
+        except Exception:
+            pass
     try:
         for case in mod.expand(unit):
             nbefore = len(acc.viol)
